@@ -306,7 +306,7 @@ def draw_c07(dec, culture='en-us'):
 
 def draw_c10ish(dec, culture='en-us'):
     """Durations and absolute / reference-anchored ranges; no value oracle here, only the C11 validators."""
-    k = dec.choice('c10-kind', 6)
+    k = dec.choice('c10-kind', 8)
     if k == 0:
         n = [1, 2, 3, 10, 24, 36, 90, 1000][dec.choice('dur-n', 8)]
         unit = ['second', 'minute', 'hour', 'day', 'week', 'month', 'year'][dec.choice('dur-unit', 7)]
@@ -332,6 +332,37 @@ def draw_c10ish(dec, culture='en-us'):
                'earlier this month', 'later this year', 'this weekend', 'last weekend', 'next weekend',
                'the past 3 days', 'next 2 weeks', 'previous 5 months', 'last 2 years', 'the coming week',
                'year to date', 'end of this month', 'beginning of next year', 'middle of last week'][dec.choice('rel-range', 19)]
+    elif k == 7:
+        # month-to-month and day-to-day ranges that share ONE trailing year
+        m1 = 1 + dec.choice('rm1', 12)
+        m2 = 1 + dec.choice('rm2', 12)
+        if m2 == m1:
+            m2 = m1 % 12 + 1
+        y = 1900 + dec.choice('year', 200)
+        form = dec.choice('myr-form', 5)
+        if form == 0:
+            lit = 'from %s to %s %d' % (MONTHS_EN[m1 - 1], MONTHS_EN[m2 - 1], y)
+        elif form == 1:
+            lit = '%s-%s %d' % (MONTHS_EN_ABBR[m1 - 1], MONTHS_EN_ABBR[m2 - 1], y)
+        elif form == 2:
+            lit = 'between %s and %s %d' % (MONTHS_EN[m1 - 1], MONTHS_EN[m2 - 1], y)
+        elif form == 3:
+            a, b = min(m1, m2), max(m1, m2)       # stated in calendar order: the input itself is not inverted
+            lit = 'from %s %d to %s %d, %d' % (MONTHS_EN[a - 1], 1 + dec.choice('d1', 28), MONTHS_EN[b - 1], 1 + dec.choice('d2', 28), y)
+        else:
+            lit = 'from %s to %s of %d' % (MONTHS_EN[m1 - 1], MONTHS_EN[m2 - 1], y)
+    elif k == 6:
+        # a date with a time range attached; half of them run past midnight
+        if dec.choice('dtr-date', 2):
+            dlit = ['today', 'tomorrow', 'yesterday', 'next friday'][dec.choice('dtr-rel', 4)]
+        else:
+            y1, m1, d1 = draw_abs_date(dec)
+            dlit = render_layout(['{Y}-{MM}-{DD}', '{Month} {D}, {Y}'][dec.choice('lay', 2)], y1, m1, d1, 'en-us')
+        h1, h2 = 1 + dec.choice('h1', 12), 1 + dec.choice('h2', 12)
+        a1, a2 = ['am', 'pm'][dec.choice('ap1', 2)], ['am', 'pm'][dec.choice('ap2', 2)]
+        t1 = '%d%s' % (h1, a1) if dec.choice('min1', 2) else '%d:%02d%s' % (h1, dec.choice('m1', 60), a1)
+        t2 = '%d%s' % (h2, a2) if dec.choice('min2', 2) else '%d:%02d%s' % (h2, dec.choice('m2', 60), a2)
+        lit = ['%s from %s to %s', '%s between %s and %s', 'on %s from %s to %s'][dec.choice('dtr-form', 3)] % (dlit, t1, t2)
     else:
         m, d = draw_month_day(dec)
         m2, d2 = draw_month_day(dec)
